@@ -212,6 +212,7 @@ impl Field {
             | Field::Uid | Field::Gid
             | Field::Width | Field::Height
             | Field::LineCount
+            | Field::Device | Field::Inode | Field::Blocks | Field::Hardlinks
             | Field::Duration
             | Field::Bitrate | Field::Freq | Field::Year
             | Field::ExifGpsLatitude | Field::ExifGpsLongitude | Field::ExifGpsAltitude)
